@@ -1,3 +1,9 @@
-//! C17 (stub: no cases yet)
+//! C17 — misused macros are rejected at compile time.
+//! The cases of this property are PROGRAMS, not values: they are generated, compiled
+//! (`cargo check --keep-going`, one `[[bin]]` per program) and judged by the Python producer
+//! `lib/gen/c17.py` (group `gen:c17` in lib/props.d/C17.json), which writes the same
+//! five-column lines this harness writes for the other properties
+//! (`family \t args \t impl \t std \t tag`, impl = ACCEPT | REJECT:<guards>).
+//! Nothing of C17 can be observed at run time, so the `c17` sub-command emits no lines.
 use crate::common::*;
 pub fn run(_cfg: &Cfg, _out: &mut Out) {}
